@@ -400,6 +400,29 @@ def check(ctx):
                "a value is narrowed to a date only when it has no time of day at all" if not miss else
                f"from_string narrows to dates without checking {miss}: values such as 00:00:00.5 (only {miss} non-zero) lose their time "
                f"of day, so from_string(to_string(x, f), f) != x", clause="from_string inverts to_string for unambiguous formats")
+    # narrowing inside a conditional expression (return out.as_date() if <test> else out): the test is judged the same way --
+    # it has to look at the parsed VALUES; a test on the format text alone cannot know about %c, %X, %T, %r, %s, %+ ...
+    from ..dataflow import depends_on as _dep19
+    fmt_p = fs.params[1] if len(fs.params) > 1 else "format"
+    for ie in [n for n in body_nodes(fs.node) if isinstance(n, ast.IfExp)]:
+        for arm, truth in ((ie.body, True), (ie.orelse, False)):
+            if not (isinstance(arm, ast.Call) and isinstance(arm.func, ast.Attribute) and arm.func.attr == "as_date"):
+                continue
+            stmt = ie
+            while not isinstance(stmt, ast.stmt):
+                stmt = fs.module.parent.get(stmt)
+            narrows.append(stmt)
+            on_values = any(isinstance(c_, ast.Call) and isinstance(c_.func, ast.Name) and c_.func.id in tod for c_ in ast.walk(ie.test)) or \
+                any(isinstance(c_, ast.Call) and isinstance(c_.func, ast.Name) and c_.func.id in tod
+                    for nm in ast.walk(ie.test) if isinstance(nm, ast.Name)
+                    for d_ in _dr19(fs, nm.id, stmt) if d_.value is not None for c_ in ast.walk(d_.value))
+            on_format = _dep19(fs, ie.test, stmt, fmt_p)
+            okv = on_values and not (on_format and not on_values)
+            ctx.ob("SIB-19", fs, f"{norm(arm)} if {norm(ie.test)[:50]}", ie, okv,
+                   "the narrowing test looks at the parsed values" if okv else
+                   f"whether the result is narrowed to dates is decided from {'the format text' if on_format else norm(ie.test)[:40]}, not from the "
+                   f"parsed values: a format whose time of day comes from a directive the test does not list (%c, %X, %T, %r ...) is "
+                   f"truncated to days, so from_string(to_string(x, f), f) != x", clause="from_string inverts to_string for unambiguous formats")
     ctx.count("date-narrowing sites in from_string", len(narrows), 1)
     # --------------------------------------------------------------- SIB-19
     pulls = [repo.fn(f"dataiter.dt.{n}") for n in ("_pull_datetime", "_pull_int", "_pull_str")]
@@ -427,7 +450,27 @@ def check(ctx):
         rets_f = [n for n in body_nodes(f.node) if isinstance(n, ast.Return) and n.value is not None]
         outs = {y.id for r_ in rets_f for y in ast.walk(r_.value) if isinstance(y, ast.Name)}
         stores = [n for n in stores if n.targets[0].value.id in outs]
-        ok = bool(stores) and all(norm(s_.targets[0].slice) == f"~{NAV}" and f"{x}[~{NAV}]" in norm(s_.value) for s_ in stores)
+        def _closure(s_):
+            """texts of the stored value and of every definition its names are (transitively) computed from"""
+            texts, seen_, work_ = [norm(s_.value)], set(), [s_.value]
+            for _ in range(5):
+                nxt = []
+                for e_ in work_:
+                    for nm in [y for y in ast.walk(e_) if isinstance(y, ast.Name) and isinstance(y.ctx, ast.Load) and y.id not in seen_ and y.id != x]:
+                        seen_.add(nm.id)
+                        for d_ in _dr19(f, nm.id, s_):
+                            if d_.value is not None and d_.kind == "assign":
+                                texts.append(norm(d_.value))
+                                nxt.append(d_.value)
+                work_ = nxt
+            return texts
+
+        def _from_nonmissing(s_):
+            tx = _closure(s_)
+            import re as _re19
+            subs = set(_re19.findall(rf"\b{_re19.escape(x)}\[([^\]]*)\]", " ".join(tx)))
+            return f"~{NAV}" in subs and subs <= {f"~{NAV}"}
+        ok = bool(stores) and all(norm(s_.targets[0].slice) == f"~{NAV}" and _from_nonmissing(s_) for s_ in stores)
         ctx.ob("SIB-19", f, norm(stores[0]) if stores else "out[~na] = f(x[~na])", stores[0] if stores else f.node, ok,
                "results of the non-missing elements are stored at the non-missing positions" if ok else
                "results are not stored from x[~na] into out[~na]", clause="at every non-missing position what datetime gives")
